@@ -1161,6 +1161,20 @@ def pattern_net(rng, idx=0, pattern=None, variant=None):
         b.net.ops.append(Op("CONV_2D", [y, first.inputs[1], bt], [z], first.opts))
         w = b.conv(z, c, (3, 3), (1, 1), (1, 1), "SAME", per_channel=False) if idx % 2 else z
         return b.finish([w])
+    if pattern == "narrowing_cascade":
+        # a cascade whose rolling buffers change element width: conv -> QUANTIZE to a wider type -> QUANTIZE back -> conv 3x3
+        # -> pool; the buffer between the two QUANTIZE operators has wider elements than its consumer's result (seeded change
+        # C03-r6m1: the live range of a rolling buffer sized from the consumer's OFM type)
+        hw = [16, 24, 32][idx % 3]
+        c = [8, 16][idx // 3 % 2]
+        x = b.input([1, hw, hw, c], "int8")
+        y = b.conv(x, c, (3, 3), (1, 1), (1, 1), "SAME")
+        q1 = b.quantize(y, "int16")
+        b.t(q1).zps = [0]
+        q2 = b.quantize(q1, "int8")
+        z = b.conv(q2, c, (3, 3), (1, 1), (1, 1), "SAME")
+        o = b.pool(z, "MAX_POOL_2D", (2, 2), (2, 2), "VALID")
+        return b.finish([o])
     if pattern == "big_fm_u65":
         c = rng.choice([16, 32])
         x = b.input([1, rng.choice([64, 96, 128]), rng.choice([64, 96]), c])
